@@ -6,8 +6,23 @@ V = os.path.dirname(os.path.dirname(os.path.abspath(__file__)))
 
 # id -> (technique, level text, level note)   -- only properties whose check is built
 CLAIMED = {
- "C06": ("model-based property testing: generated operation histories (byte strings decoded with arbitrary::Unstructured) against a Vec<bool> model, full-state comparison after every op, byte-level shrinking",
-         "Generated-input search: tens of thousands (quick) to ~10^6 (thorough) operation histories over all construction routes, the growable/boxed/atomic forms and their conversions, with out-of-range accesses that must panic; every observation is compared with a Vec<bool> model after every step. Exploration, not proof: it shows the absence of violations only on the histories generated.",
+ "C01": ("differential property testing against a prefix-popcount oracle over generated bit vectors x a menu of ~75 rank/select stacks",
+         "Generated-input search over bit-vector descriptions (length classes around 64/512/2048-bit boundaries, densities 0.001..0.99, saturated/empty blocks, sparse gap lists, construction routes that leave stale bits: pop, shrinking resize, dirty raw parts) and a menu of rank-capable stacks (Rank9, the five RankSmall, boxed, under SelectAdapt/Const, Select9, SelectSmall, zero selectors, map re-wrappings); rank/rank_zero compared with prefix popcounts at every position up to len+2 (or boundary/sampled positions) and far beyond len; num_ones/count_ones/len/Index checked. Exploration: absence of violations only on what was generated.",
+         "Trusts the harness oracle (prefix popcounts of the logical bits) and decoders. Vectors above 2^32 bits are only covered by the dedicated 'huge' cases of the thorough tier."),
+ "C02": ("differential property testing against the positions of ones/zeros over generated bit vectors x selection structures x parameters",
+         "Generated-input search over bit vectors (including prescribed gap lists around 2^16, ragged tails, stale bits) x selection stacks (Select9, SelectAdapt new/with_span/with_inv, 12 const (K,M) pairs, SelectSmall over each RankSmall, the zero twins, nestings) x generated parameters; select/select_zero compared with the oracle for every rank (sampled above 4096) and None beyond the count. Exploration level.",
+         "Trusts the oracle (positions of ones / binary search on prefix counts for zeros). 64-bit spans (gaps > 2^32) need vectors above 2^32 bits: thorough-tier 'huge' cases only."),
+ "C03": ("round-trip property testing: generated monotone sequences x builders x 9 selection back-ends, illegal pushes must be rejected",
+         "Generated-input search over monotone sequences (duplicate runs crossing words, powers of two, huge gaps, u up to usize::MAX, (n,u) near the power-of-two split) built by push / extend / From<slice> / concurrent set in random order, then mapped onto 9 selection back-ends; len, get, iter, iter_from/into_iter_from at all starts with exact length hints compared with the input; out-of-order, too large and supernumerary pushes must panic and leave the builder usable. Exploration level.",
+         "Trusts the input vector as oracle. Sequences are bounded (<= 10^5 elements in the thorough tier)."),
+ "C04": ("property testing against an order-theoretic oracle (partition_point) over generated sequences and query lists covering the whole usize range",
+         "Generated-input search over sequences as in C03 and, per sequence, ~100-250 queries (elements, neighbours, midpoints, bucket edges, u-1, u, u+1, 2u, 2^63, usize::MAX, random) on 5 select+select_zero back-ends; index_of/contains/succ/succ_strict/pred/pred_strict compared with partition_point on the sorted input, accepting any index that holds the returned value. Exploration level.",
+         "Trusts the oracle; with duplicates any index holding the value is accepted, as the property states."),
+ "C05": ("model-based property testing: generated operation histories per word type and bit width against a Vec of values, full-state comparison after every op",
+         "Generated-input search: for each of the six word types, histories of <=60 operations (construction routes incl. macros and from_slice, push/pop/set/get/resize/clear/extend, positioned/unchecked/reverse iteration, equality, from_slice into every word type, boxed and atomic conversions with single-threaded atomic scripts) at widths 0..=BITS with all-ones/top-bit values; every observation is compared with a Vec model after every step; non-fitting values and out-of-range indices must panic and leave the contents unchanged. Exploration level.",
+         "Trusts the Vec model and the decoders. set()/set_atomic() with width 0 is never generated (documented as undefined)."),
+ "C06": ("model-based property testing: generated operation histories against a Vec<bool> model, full-state comparison after every op, byte-level shrinking",
+         "Generated-input search: hundreds of thousands (quick) to millions (thorough) of operation histories over all construction routes, the growable/boxed/atomic forms and their conversions, with out-of-range accesses that must panic; every observation is compared with a Vec<bool> model after every step. Exploration, not proof: it shows the absence of violations only on the histories generated.",
          "Trusts the harness model (Vec<bool>) and the decoders; worker processes isolate aborting cases; the checked profile (debug assertions => std ub_checks) turns out-of-bounds get_unchecked into an abort that is reported as a violation."),
 }
 
